@@ -27,6 +27,7 @@ type SliceV struct {
 	OrgAt  string
 	ElemT  types.Type
 	Src    *Addr // provenance: guarded field whose backing array this value shares (for alias obligations)
+	Ext    bool  // the backing array is visible to the caller (a parameter slice or a reslice of one)
 }
 
 func (s *SliceV) at(i T) T { return App(s.Elem, s.At, i) }
@@ -97,6 +98,7 @@ type Engine struct {
 	funcs          map[string]*ssa.Function // by contract-style name
 	readOwnedCache map[string]bool
 	renameNotes    []string
+	baseClosures   map[string][]ClosureSig
 	loopsHit       map[string]bool
 	calledFns      map[*ssa.Function]bool
 	replayInfo     map[string]*ReplayInfo
